@@ -3,10 +3,11 @@ From Avt Require Import Oracles.Step Spec.Williams Spec.Functions Proofs.Inv Pro
 
 Lemma spec_emit_feed_emit p c : spec_emit p c = feed_emit p c.
 Proof.
-  unfold spec_emit, feed_emit. destruct (t_kind (williams (pst p) c)); try reflexivity.
-  - symmetry. apply execute_table.
-  - symmetry. apply (proj1 (esc_table (inter p) c)).
-  - symmetry. apply csi_table.
+  unfold spec_emit, feed_emit. destruct (t_kind (williams (pst p) c));
+    first [ reflexivity
+          | symmetry; apply execute_table
+          | symmetry; apply (proj1 (esc_table (inter p) c))
+          | symmetry; apply csi_table ].
 Qed.
 
 Theorem spec_feed_is_feedM : forall p c, PInv p -> feedM p c = Ok (spec_feed p c).
